@@ -924,6 +924,56 @@ struct TKey : sigc::notifiable { long t, k; };
 static std::map<std::pair<long, long>, TKey*>* g_keys;
 static std::map<long, std::vector<std::pair<char, long>>>* g_kscripts;
 static std::map<long, sigc::trackable*>* g_plain;
+// The trackable objects of a track-mode program come in three flavours (by id modulo 3): a plain
+// sigc::trackable, a class derived from it with compiler-generated copy / move, and a
+// sigc::trackable_signal (whose own copy / move constructors and assignments must hand the trackable
+// base on correctly).  TrackModel does not distinguish them.
+struct TDerived : public sigc::trackable { long pad = 0; };
+struct TBox
+{
+  virtual ~TBox() {}
+  virtual sigc::trackable& t() = 0;
+  virtual TBox* copy() = 0;
+  virtual TBox* move_out() = 0;
+  virtual void assign(TBox& o) = 0;
+  virtual void move_assign(TBox& o) = 0;
+};
+template <class T>
+struct TBoxT : TBox
+{
+  T obj;
+  TBoxT() {}
+  explicit TBoxT(const T& o) : obj(o) {}
+  explicit TBoxT(T&& o) : obj(std::move(o)) {}
+  sigc::trackable& t() override { return obj; }
+  TBox* copy() override { return new TBoxT<T>(obj); }
+  TBox* move_out() override { return new TBoxT<T>(std::move(obj)); }
+  // assignment goes through the class's own operator= except for trackable_signal, whose assignment
+  // deliberately does not notify ("this signal is not destroyed"): there the trackable base is assigned
+  static constexpr bool own_assign = !std::is_base_of_v<sigc::signal_base, T>;
+  void assign(TBox& o) override
+  {
+    auto* same = dynamic_cast<TBoxT<T>*>(&o);
+    if constexpr (own_assign) { if (same) { obj = same->obj; return; } }
+    static_cast<sigc::trackable&>(obj) = o.t();
+  }
+  void move_assign(TBox& o) override
+  {
+    auto* same = dynamic_cast<TBoxT<T>*>(&o);
+    if constexpr (own_assign) { if (same) { obj = std::move(same->obj); return; } }
+    static_cast<sigc::trackable&>(obj) = std::move(o.t());
+  }
+};
+static std::map<long, TBox*>* g_boxes;
+static TBox* new_box(long v)
+{
+  switch (v % 3)
+  {
+    case 1: return new TBoxT<TDerived>();
+    case 2: return new TBoxT<sigc::trackable_signal<void()>>();
+    default: return new TBoxT<sigc::trackable>();
+  }
+}
 
 static TKey* key_of(long t, long k)
 {
@@ -954,6 +1004,8 @@ static std::string run_track(const std::string& line)
   g_keys = new std::map<std::pair<long, long>, TKey*>;
   g_kscripts = new std::map<long, std::vector<std::pair<char, long>>>;
   g_plain = new std::map<long, sigc::trackable*>;
+  g_boxes = new std::map<long, TBox*>;
+  auto& B = *g_boxes;
   std::vector<long> order;   // creation order of variables (the model lists them in this order)
   size_t p = 0;
   while (p < t.size() && t[p] == "K")
@@ -971,16 +1023,16 @@ static std::string run_track(const std::string& line)
   {
     std::string m = t[p++];
     auto arg = [&]() { return atol(t.at(p++).c_str()); };
-    if (m == "new") { long v = arg(); if (!has(v)) { P[v] = new sigc::trackable; order.push_back(v); } }
-    else if (m == "cc") { long n = arg(), o = arg(); if (!has(n) && has(o)) { P[n] = new sigc::trackable(*P[o]); order.push_back(n); } }
-    else if (m == "mc") { long n = arg(), o = arg(); if (!has(n) && has(o)) { P[n] = new sigc::trackable(std::move(*P[o])); order.push_back(n); } }
-    else if (m == "as") { long d = arg(), s = arg(); if (has(d) && has(s)) *P[d] = *P[s]; }
-    else if (m == "ma") { long d = arg(), s = arg(); if (has(d) && has(s)) *P[d] = std::move(*P[s]); }
+    if (m == "new") { long v = arg(); if (!has(v)) { B[v] = new_box(v); P[v] = &B[v]->t(); order.push_back(v); } }
+    else if (m == "cc") { long n = arg(), o = arg(); if (!has(n) && has(o)) { B[n] = B[o]->copy(); P[n] = &B[n]->t(); order.push_back(n); } }
+    else if (m == "mc") { long n = arg(), o = arg(); if (!has(n) && has(o)) { B[n] = B[o]->move_out(); P[n] = &B[n]->t(); order.push_back(n); } }
+    else if (m == "as") { long d = arg(), s = arg(); if (has(d) && has(s)) B[d]->assign(*B[s]); }
+    else if (m == "ma") { long d = arg(), s = arg(); if (has(d) && has(s)) B[d]->move_assign(*B[s]); }
     else if (m == "no") { long v = arg(); if (has(v)) P[v]->notify_callbacks(); }
     else if (m == "de")
     {
       long v = arg();
-      if (has(v)) { sigc::trackable* o = P[v]; delete o; P.erase(v); order.erase(std::find(order.begin(), order.end(), v)); }
+      if (has(v)) { TBox* o = B[v]; delete o; P.erase(v); B.erase(v); order.erase(std::find(order.begin(), order.end(), v)); }
     }
     else if (m == "add") { long v = arg(), k = arg(); if (has(v)) P[v]->add_destroy_notify_callback(key_of(v, k), &track_cb); }
     else if (m == "rm") { long v = arg(), k = arg(); if (has(v)) P[v]->remove_destroy_notify_callback(key_of(v, k)); }
